@@ -78,6 +78,8 @@ def apply(world, op, tokinfo):
         [s.cutoff(24, 12) for s in world]
     elif op == "scale":
         [s.scale(2, quantise_afterwards=False) for s in world]
+    elif op == "scale_identity":
+        [s.scale(1, quantise_afterwards=(i % 2 == 0)) for i, s in enumerate(world)]
     elif op == "scale_requantise":
         [s.scale(2) for s in world]
     elif op == "transpose":
